@@ -25,7 +25,7 @@ def run(tier, seed):
                  "term 0); the lookup table is verified affine in its index and is never written; the routine is a left fold "
                  "over buf[0..buf_len) from *crc to *crc with no other state - every loop-carried value is affine in the "
                  "iteration number at the full width of buf_len, the byte read in iteration k is buf[k], the loop is left exactly at k == buf_len - so any split gives the same value; callers start "
-                 "at 0 and compare the raw accumulator.")
+                 "at 0 and compare the raw accumulator; the decoder's running value is fed exactly the bytes it delivers (C14's identity rules run here too).")
     rep.trusted_base = ["clang 14 C front end, LLVM sroa/early-cse preserve semantics", "irx serialises the IR faithfully",
                         "sa/lhsa/gf2.py (bit-affine domain) and the rule code in sa/lhsa/props/c17.py",
                         "the textbook definition of CRC-16/ARC encoded in gf2.crc16_arc_step (reflected polynomial 0xA001)"]
